@@ -372,8 +372,12 @@ class Report:
                 continue
             real.append(v)
         reported = set()
+        suppressed = 0
         for i, v in enumerate(real):
             if v["key"] in reported:
+                continue
+            if len(reported) >= 25:
+                suppressed += 1
                 continue
             reported.add(v["key"])
             path = os.path.join(OUT_DIR, self.prop, "violation_%d.json" % len(reported))
@@ -382,6 +386,8 @@ class Report:
             print("VIOLATION property=%s replay=%s" % (self.prop, path))
             print("  key=%s: %s" % (v["key"], v["what"]))
             rc = 1
+        if suppressed:
+            print("  ... and %d more violating cells (not listed)" % suppressed)
         for d in self.drift[:5]:
             print("DRIFT property=%s %s" % (self.prop, d))
         cov = {
